@@ -1263,7 +1263,7 @@ def shrink(cirq, vocab, doc, kind):
     changed, rounds = True, 0
     while changed and rounds < 6:
         changed, rounds = False, rounds + 1
-        for i in range(len(calls) - 2, -1, -1):          # the last call is the failing one
+        for i in range(len(calls) - 1, -1, -1):
             cand = calls[:i] + calls[i + 1:]
             if fails(dict(doc, calls=cand)):
                 calls, changed = cand, True
